@@ -494,3 +494,285 @@ Proof.
       unfold spawn_peer in H. destruct (rev (m_candidates m)) as [|[a0 id] rest]; [injection H as <- _ _ _; exact (Hn Hh)|].
       destruct (pget _ a0); injection H as <- _ _ _; exact (Hn Hh).
 Qed.
+
+(* ---- C12: the reservation invariant of the manager -------------------------------------------------- *)
+Definition optN_eqb (a b : option N) : bool :=
+  match a, b with Some x, Some y => x =? y | None, None => true | _, _ => false end.
+(* the peer is not choking us and is assigned piece i *)
+Definition assigned (i : N) (p : peer) : bool := negb (p_choked p) && optN_eqb (p_piece_index p) (Some i).
+Definition cnt (ps : list (addr * peer)) (i : N) : N := len (filter (fun kp => assigned i (snd kp)) ps).
+
+(* a piece is marked Reserved(n) only with 1 <= n <= the number of connected peers that are not choking us and
+   are assigned it *)
+Definition InvM (m : mgr) : Prop :=
+  forall i n, nthN (m_status m) i = Some (Reserved n) -> 1 <= n <= cnt (m_peers m) i.
+
+(* what the connection tasks guarantee about the commands they send (Handler.v: an Unchoke is relayed only when the
+   peer was choking us) *)
+Definition producible (m : mgr) (c : cmd) : Prop :=
+  match c with
+  | CUnchoke a => forall p, pget (m_peers m) a = Some p -> p_choked p = true
+  | _ => True
+  end.
+
+Lemma assigned_idx i p : assigned i p = true -> p_piece_index p = Some i /\ p_choked p = false.
+Proof.
+  unfold assigned. intros H. apply andb_true_iff in H. destruct H as [A B]. apply negb_true_iff in A.
+  destruct (p_piece_index p) as [k|]; cbn in B; [|discriminate]. apply N.eqb_eq in B. subst. auto.
+Qed.
+Lemma assigned_other i k p : p_piece_index p = Some k -> k <> i -> assigned i p = false.
+Proof. intros H N. unfold assigned. rewrite H. cbn. replace (k =? i) with false by (symmetry; apply N.eqb_neq; exact N). apply andb_false_r. Qed.
+Lemma assigned_none i p : p_piece_index p = None -> assigned i p = false.
+Proof. intros H. unfold assigned. rewrite H. apply andb_false_r. Qed.
+Lemma assigned_choked i p : p_choked p = true -> assigned i p = false.
+Proof. intros H. unfold assigned. rewrite H. reflexivity. Qed.
+
+Lemma cnt_pset ps a p p' i : pget ps a = Some p ->
+  cnt (pset ps a p') i + b2n (assigned i p) = cnt ps i + b2n (assigned i p').
+Proof. apply (count_pset (assigned i)). Qed.
+
+Lemma cnt_ge ps a p i : pget ps a = Some p -> b2n (assigned i p) <= cnt ps i.
+Proof.
+  unfold cnt. induction ps as [|[k q] ps IH]; cbn [pget]; [discriminate|]. destruct (k =? a).
+  - intros [= ->]. cbn [filter snd]. destruct (assigned i p); cbn [b2n]; rewrite ?len_cons; lia.
+  - intros H. specialize (IH H). cbn [filter snd]. destruct (assigned i q); rewrite ?len_cons; lia.
+Qed.
+
+Lemma cnt_premove ps a p i : pget ps a = Some p -> cnt (premove ps a) i + b2n (assigned i p) = cnt ps i.
+Proof.
+  unfold cnt. induction ps as [|[k q] ps IH]; cbn [pget premove]; [discriminate|]. destruct (k =? a).
+  - intros [= ->]. cbn [filter snd]. destruct (assigned i p); cbn [b2n]; rewrite ?len_cons; lia.
+  - intros H. specialize (IH H). cbn [filter snd]. destruct (assigned i q); rewrite ?len_cons; lia.
+Qed.
+
+Lemma cnt_pset_fresh ps a p' i : pget ps a = None -> cnt (pset ps a p') i = cnt ps i + b2n (assigned i p').
+Proof.
+  unfold cnt. induction ps as [|[k q] ps IH]; cbn [pget pset].
+  - intros _. cbn [filter snd]. destruct (assigned i p'); cbn [b2n]; rewrite ?len_cons; reflexivity.
+  - destruct (k =? a); [discriminate|]. intros H. specialize (IH H). cbn [filter snd]. destruct (assigned i q); rewrite ?len_cons; lia.
+Qed.
+
+Lemma nthN_sset st k s j : nthN (sset st k s) j =
+  if k =? j then (match nthN st k with Some _ => Some s | None => None end) else nthN st j.
+Proof.
+  unfold nthN, sset. rewrite nth_set_nth. destruct (N.eqb_spec k j) as [->|N].
+  - rewrite Nat.eqb_refl. reflexivity.
+  - replace (Nat.eqb (N.to_nat k) (N.to_nat j)) with false by (symmetry; apply Nat.eqb_neq; lia). reflexivity.
+Qed.
+
+Lemma incr_reserved s n : incr s = Reserved n -> (s = Missing /\ n = 1) \/ (exists k, s = Reserved k /\ n = k + 1).
+Proof. destruct s as [|k|]; cbn; intros [= <-]; [left; auto | right; exists k; auto]. Qed.
+Lemma decr_reserved s n : decr s = Reserved n -> s = Reserved (n + 1) /\ 1 <= n.
+Proof.
+  destruct s as [|k|]; cbn; try discriminate. destruct (N.leb_spec 2 k); [|discriminate]. intros [= <-]. split; [f_equal; lia | lia].
+Qed.
+
+Lemma assigned_set_none j p b : assigned j (set_assign p None b) = false.
+Proof. unfold assigned. cbn. apply andb_false_r. Qed.
+Lemma assigned_set_some j p c b : assigned j (set_assign p (Some c) b) = negb (p_choked p) && (c =? j).
+Proof. reflexivity. Qed.
+Lemma assigned_unchoke_some j p c b : assigned j (set_assign (set_choked p false) (Some c) b) = (c =? j).
+Proof. reflexivity. Qed.
+Lemma assigned_unchoke_none j p b : assigned j (set_assign (set_choked p false) None b) = false.
+Proof. reflexivity. Qed.
+Lemma assigned_set_choked_true j p : assigned j (set_choked p true) = false.
+Proof. reflexivity. Qed.
+Lemma assigned_have_assign j p bits i b : assigned j (set_assign (set_pieces p bits) (Some i) b) = negb (p_choked p) && (i =? j).
+Proof. reflexivity. Qed.
+Lemma assigned_self p k : p_choked p = false -> p_piece_index p = Some k -> assigned k p = true.
+Proof. intros A B. unfold assigned. rewrite A, B. cbn. apply N.eqb_refl. Qed.
+
+Ltac norm C := rewrite ?assigned_set_none, ?assigned_unchoke_some, ?assigned_unchoke_none, ?assigned_set_choked_true,
+                       ?assigned_have_assign, ?assigned_set_some in C.
+
+Theorem reservation_invariant m c pick m' r bc sp :
+  Peer_no_reserve_when_choked = true ->
+  InvM m -> producible m c -> mstep m c pick = Ok (m', r, bc, sp) -> InvM m'.
+Proof.
+  intros FR Inv Hpre H j n Hj.
+  (* commands that only touch fields irrelevant to `assigned` and leave the statuses alone *)
+  assert (Same : forall a p p', pget (m_peers m) a = Some p -> m_status m' = m_status m ->
+                 m_peers m' = pset (m_peers m) a p' -> (forall i, assigned i p' = assigned i p) -> 1 <= n <= cnt (m_peers m') j).
+  { intros a p p' Ep Es Epe Ha. rewrite Epe. pose proof (cnt_pset (m_peers m) a p p' j Ep) as C. rewrite Ha in C.
+    rewrite Es in Hj. specialize (Inv j n Hj). lia. }
+  destruct c; cbn [mstep] in H; unfold out in H.
+  - (* init *)
+    destruct (pget (m_peers m) a) as [p|] eqn:Ep; [|discriminate]. injection H as <- _ _ _.
+    eapply (Same a p); [exact Ep | reflexivity | reflexivity | intros; reflexivity].
+  - (* choke *)
+    destruct (pget (m_peers m) a) as [p|] eqn:Ep; [|discriminate].
+    pose proof (cnt_pset (m_peers m) a p (set_choked p true) j Ep) as C. norm C. cbn [b2n] in C.
+    destruct (p_piece_index p) as [k|] eqn:Ek; cbn [bind] in H.
+    + destruct (upd_status (m_status m) k decr) as [st| | |] eqn:E; cbn [bind] in H; try discriminate.
+      injection H as <- _ _ _. cbn [m_status m_peers with_peer with_status] in *.
+      unfold upd_status in E. destruct (nthN (m_status m) k) as [sk|] eqn:Esk; [|discriminate]. injection E as <-.
+      rewrite nthN_sset in Hj. destruct (N.eqb_spec k j) as [->|Nkj].
+      * rewrite Esk in Hj. injection Hj as Hj. apply decr_reserved in Hj. destruct Hj as [-> Hn].
+        specialize (Inv j (n + 1) Esk). destruct (assigned j p); cbn [b2n] in C; lia.
+      * specialize (Inv j n Hj). rewrite (assigned_other j k p Ek Nkj) in C. cbn [b2n] in C. lia.
+    + injection H as <- _ _ _. cbn [m_status m_peers with_peer with_status] in *.
+      rewrite (assigned_none j p Ek) in C. cbn [b2n] in C. specialize (Inv j n Hj). lia.
+  - (* unchoke *)
+    destruct (pget (m_peers m) a) as [p|] eqn:Ep; [|discriminate].
+    pose proof (Hpre p Ep) as Hch.
+    destruct pick as [c0|].
+    + destruct (upd_status (m_status m) c0 incr) as [st| | |] eqn:E; cbn [bind] in H; try discriminate.
+      destruct (plen_of m c0); cbn [bind] in H; try discriminate.
+      assert (Hm' : m_status m' = st /\ m_peers m' = pset (m_peers m) a (set_assign (set_choked p false) (Some c0) true)).
+      { destruct (p_am_interested p); injection H as <- _ _ _; split; reflexivity. }
+      destruct Hm' as [Es Epe]. rewrite Es in Hj. rewrite Epe.
+      unfold upd_status in E. destruct (nthN (m_status m) c0) as [sc|] eqn:Esc; [|discriminate]. injection E as <-.
+      pose proof (cnt_pset (m_peers m) a p (set_assign (set_choked p false) (Some c0) true) j Ep) as C. norm C.
+      rewrite (assigned_choked j p Hch) in C. cbn [b2n] in C.
+      rewrite nthN_sset in Hj. destruct (N.eqb_spec c0 j) as [->|Ncj]; cbn [b2n] in C.
+      * rewrite Esc in Hj. injection Hj as Hj.
+        apply incr_reserved in Hj. destruct Hj as [[-> ->]|(k & -> & ->)]; [lia|]. specialize (Inv j k Esc). lia.
+      * specialize (Inv j n Hj). lia.
+    + assert (Hm' : m_status m' = m_status m /\ m_peers m' = pset (m_peers m) a (set_assign (set_choked p false) None false)).
+      { destruct (p_am_interested p); injection H as <- _ _ _; split; reflexivity. }
+      destruct Hm' as [Es Epe]. rewrite Es in Hj. rewrite Epe.
+      pose proof (cnt_pset (m_peers m) a p (set_assign (set_choked p false) None false) j Ep) as C. norm C.
+      rewrite (assigned_choked j p Hch) in C. cbn [b2n] in C. specialize (Inv j n Hj). lia.
+  - destruct (pget (m_peers m) a) as [p|] eqn:Ep; [|discriminate]. injection H as <- _ _ _.
+    eapply (Same a p); [exact Ep | reflexivity | reflexivity | intros; reflexivity].
+  - destruct (pget (m_peers m) a) as [p|] eqn:Ep; [|discriminate]. injection H as <- _ _ _.
+    eapply (Same a p); [exact Ep | reflexivity | reflexivity | intros; reflexivity].
+  - (* have *)
+    destruct (pget (m_peers m) a) as [p|] eqn:Ep; [|discriminate].
+    destruct (len (p_pieces p) <=? i); [discriminate|].
+    destruct (nthN (m_status m) i) as [si|] eqn:Esi; [|discriminate].
+    destruct (is_missing si && negb (p_am_interested p)) eqn:EM.
+    + destruct (negb (p_choked p) && match p_piece_index p with None => true | Some _ => false end) eqn:EA.
+      * destruct (plen_of m i); cbn [bind] in H; try discriminate. injection H as <- _ _ _.
+        cbn [m_status m_peers with_peer with_status] in *.
+        apply andb_true_iff in EA. destruct EA as [EA1 EA2]. apply negb_true_iff in EA1.
+        destruct (p_piece_index p) eqn:Ek; [discriminate|].
+        pose proof (cnt_pset (m_peers m) a p (set_assign (set_pieces p (set_nth (p_pieces p) (N.to_nat i) true)) (Some i) true) j Ep) as C.
+        norm C. rewrite (assigned_none j p Ek), EA1 in C. cbn [b2n negb andb] in C.
+        rewrite nthN_sset in Hj. destruct (N.eqb_spec i j) as [->|Nij]; cbn [b2n] in C.
+        -- rewrite Esi in Hj. injection Hj as <-. lia.
+        -- specialize (Inv j n Hj). lia.
+      * injection H as <- _ _ _. eapply (Same a p); [exact Ep | reflexivity | reflexivity | intros; reflexivity].
+    + injection H as <- _ _ _. eapply (Same a p); [exact Ep | reflexivity | reflexivity | intros; reflexivity].
+  - (* bitfield *)
+    destruct (pget (m_peers m) a) as [p|] eqn:Ep; [|discriminate].
+    destruct (to_vec bits (pieces_n m)) as [v|]; [|discriminate]. destruct (negb (len v =? len (p_pieces p))); [discriminate|].
+    injection H as <- _ _ _. eapply (Same a p); [exact Ep | reflexivity | reflexivity | intros; reflexivity].
+  - (* request *)
+    destruct (pget (m_peers m) a) as [p|] eqn:Ep; [|discriminate].
+    assert (m' = m).
+    { destruct (p_am_choked p); [injection H as <- _ _ _; reflexivity|]. destruct (pieces_n m <=? i); [injection H as <- _ _ _; reflexivity|].
+      destruct (nthN (m_status m) i) as [s|]; [|discriminate]. destruct (is_have s); injection H as <- _ _ _; reflexivity. }
+    subst m'. apply Inv. exact Hj.
+  - (* piece done *)
+    destruct (pget (m_peers m) a) as [p|] eqn:Ep; [|discriminate].
+    destruct (p_piece_index p) as [k|] eqn:Ek; [|discriminate].
+    destruct (nthN (m_status m) k) as [sk|] eqn:Esk; [|discriminate].
+    destruct (peer_handle_piece _ a p pick) as [[[[m2 rep] bc2] sp2]| | |] eqn:E; cbn [bind] in H; try discriminate.
+    injection H as <- _ _ _. unfold peer_handle_piece in E. rewrite FR in E. cbn [andb m_status with_status] in E.
+    destruct pick as [c0|].
+    + destruct (p_choked p) eqn:Ech.
+      * unfold out in E. injection E as <- _ _ _. cbn [m_status m_peers with_peer with_status] in *.
+        pose proof (cnt_pset (m_peers m) a p (set_assign p None (p_am_interested p)) j Ep) as C. norm C.
+        rewrite (assigned_choked j p Ech) in C. cbn [b2n] in C.
+        rewrite nthN_sset in Hj. destruct (N.eqb_spec k j) as [->|Nkj]; [rewrite Esk in Hj; discriminate|].
+        specialize (Inv j n Hj). lia.
+      * destruct (upd_status (sset (m_status m) k Have) c0 incr) as [st| | |] eqn:E2; cbn [bind] in E; try discriminate.
+        destruct (plen_of _ c0); cbn [bind] in E; try discriminate. unfold out in E. injection E as <- _ _ _.
+        cbn [m_status m_peers with_peer with_status] in *.
+        unfold upd_status in E2. destruct (nthN (sset (m_status m) k Have) c0) as [sc|] eqn:Esc; [|discriminate]. injection E2 as <-.
+        pose proof (cnt_pset (m_peers m) a p (set_assign p (Some c0) (p_am_interested p)) j Ep) as C. norm C. rewrite Ech in C. cbn [negb andb] in C.
+        pose proof Esc as Esc0. rewrite nthN_sset in Hj. rewrite nthN_sset in Esc.
+        destruct (N.eqb_spec c0 j) as [->|Ncj]; cbn [b2n] in C.
+        -- rewrite Esc0 in Hj. injection Hj as Hj.
+           destruct (N.eqb_spec k j) as [->|Nkj]; [rewrite Esk in Esc; injection Esc as <-; cbn in Hj; discriminate|].
+           rewrite (assigned_other j k p Ek Nkj) in C. cbn [b2n] in C.
+           apply incr_reserved in Hj. destruct Hj as [[-> ->]|(k0 & -> & ->)]; [lia|]. specialize (Inv j k0 Esc). lia.
+        -- rewrite nthN_sset in Hj. destruct (N.eqb_spec k j) as [->|Nkj]; [rewrite Esk in Hj; discriminate|].
+           rewrite (assigned_other j k p Ek Nkj) in C. cbn [b2n] in C. specialize (Inv j n Hj). lia.
+    + unfold out in E. injection E as <- _ _ _. cbn [m_status m_peers with_peer with_status] in *.
+      pose proof (cnt_pset (m_peers m) a p (set_assign p None false) j Ep) as C. norm C. cbn [b2n] in C.
+      rewrite nthN_sset in Hj. destruct (N.eqb_spec k j) as [->|Nkj]; [rewrite Esk in Hj; discriminate|].
+      rewrite (assigned_other j k p Ek Nkj) in C. cbn [b2n] in C. specialize (Inv j n Hj). lia.
+  - (* piece cancel *)
+    destruct (pget (m_peers m) a) as [p|] eqn:Ep; [|discriminate].
+    destruct (p_piece_index p) as [k|] eqn:Ek; [|discriminate].
+    destruct (upd_status (m_status m) k decr) as [st1| | |] eqn:E1; cbn [bind] in H; try discriminate.
+    unfold upd_status in E1. destruct (nthN (m_status m) k) as [sk|] eqn:Esk; [|discriminate]. injection E1 as <-.
+    unfold peer_handle_piece in H. rewrite FR in H. cbn [andb m_status with_status] in H.
+    pose proof (cnt_ge (m_peers m) a p k Ep) as Hge.
+    destruct pick as [c0|].
+    + destruct (p_choked p) eqn:Ech.
+      * unfold out in H. injection H as <- _ _ _. cbn [m_status m_peers with_peer with_status] in *.
+        pose proof (cnt_pset (m_peers m) a p (set_assign p None (p_am_interested p)) j Ep) as C. norm C.
+        rewrite (assigned_choked j p Ech) in C. cbn [b2n] in C.
+        rewrite nthN_sset in Hj. destruct (N.eqb_spec k j) as [->|Nkj].
+        -- rewrite Esk in Hj. injection Hj as Hj. apply decr_reserved in Hj. destruct Hj as [-> Hn]. specialize (Inv j (n + 1) Esk). lia.
+        -- specialize (Inv j n Hj). lia.
+      * destruct (upd_status (sset (m_status m) k (decr sk)) c0 incr) as [st| | |] eqn:E2; cbn [bind] in H; try discriminate.
+        destruct (plen_of _ c0); cbn [bind] in H; try discriminate. unfold out in H. injection H as <- _ _ _.
+        cbn [m_status m_peers with_peer with_status] in *.
+        unfold upd_status in E2. destruct (nthN (sset (m_status m) k (decr sk)) c0) as [sc|] eqn:Esc; [|discriminate]. injection E2 as <-.
+        pose proof (cnt_pset (m_peers m) a p (set_assign p (Some c0) (p_am_interested p)) j Ep) as C. norm C. rewrite Ech in C. cbn [negb andb] in C.
+        pose proof (assigned_self p k Ech Ek) as Hak.
+        pose proof Esc as Esc0. rewrite nthN_sset in Hj. rewrite nthN_sset in Esc.
+        destruct (N.eqb_spec c0 j) as [->|Ncj]; cbn [b2n] in C.
+        -- rewrite Esc0 in Hj. injection Hj as Hj.
+           destruct (N.eqb_spec k j) as [->|Nkj].
+           ++ rewrite Esk in Esc. injection Esc as <-. rewrite Hak in C, Hge. cbn [b2n] in C, Hge.
+              destruct sk as [|k0|]; cbn in Hj.
+              ** injection Hj as <-. lia.
+              ** specialize (Inv j k0 Esk). destruct (N.leb_spec 2 k0); cbn in Hj; injection Hj as <-; lia.
+              ** discriminate.
+           ++ rewrite (assigned_other j k p Ek Nkj) in C. cbn [b2n] in C.
+              apply incr_reserved in Hj. destruct Hj as [[-> ->]|(k0 & -> & ->)]; [lia|]. specialize (Inv j k0 Esc). lia.
+        -- rewrite nthN_sset in Hj. destruct (N.eqb_spec k j) as [->|Nkj].
+           ++ rewrite Esk in Hj. injection Hj as Hj. apply decr_reserved in Hj. destruct Hj as [-> Hn].
+              specialize (Inv j (n + 1) Esk). rewrite Hak in C. cbn [b2n] in C. lia.
+           ++ rewrite (assigned_other j k p Ek Nkj) in C. cbn [b2n] in C. specialize (Inv j n Hj). lia.
+    + unfold out in H. injection H as <- _ _ _. cbn [m_status m_peers with_peer with_status] in *.
+      pose proof (cnt_pset (m_peers m) a p (set_assign p None false) j Ep) as C. norm C. cbn [b2n] in C.
+      rewrite nthN_sset in Hj. destruct (N.eqb_spec k j) as [->|Nkj].
+      * rewrite Esk in Hj. injection Hj as Hj. apply decr_reserved in Hj. destruct Hj as [-> Hn].
+        specialize (Inv j (n + 1) Esk). destruct (assigned j p); cbn [b2n] in C; lia.
+      * rewrite (assigned_other j k p Ek Nkj) in C. cbn [b2n] in C. specialize (Inv j n Hj). lia.
+  - destruct (pget (m_peers m) a) as [p|] eqn:Ep; [|discriminate]. injection H as <- _ _ _.
+    eapply (Same a p); [exact Ep | reflexivity | reflexivity | intros; reflexivity].
+  - (* kill *)
+    assert (KP : forall m1, kill_peer m a = Ok m1 -> forall j n, nthN (m_status m1) j = Some (Reserved n) -> 1 <= n <= cnt (m_peers m1) j).
+    { unfold kill_peer. intros m1. destruct (pget (m_peers m) a) as [p|] eqn:Ep; cbn [bind].
+      - destruct (p_piece_index p) as [k|] eqn:Ek; cbn [bind].
+        + destruct (nthN (m_status m) k) as [sk|] eqn:Esk; cbn [bind]; [|discriminate]. intros [= <-] j0 n0 Hj0.
+          cbn [m_status m_peers] in *. pose proof (cnt_premove (m_peers m) a p j0 Ep) as C.
+          destruct (is_have sk) eqn:Eh.
+          * destruct (N.eq_dec k j0) as [->|Nk]; [rewrite Esk in Hj0; injection Hj0 as ->; discriminate|].
+            rewrite (assigned_other j0 k p Ek Nk) in C. cbn [b2n] in C. specialize (Inv j0 n0 Hj0). lia.
+          * rewrite nthN_sset in Hj0. destruct (N.eqb_spec k j0) as [->|Nk]; [rewrite Esk in Hj0; discriminate|].
+            rewrite (assigned_other j0 k p Ek Nk) in C. cbn [b2n] in C. specialize (Inv j0 n0 Hj0). lia.
+        + intros [= <-] j0 n0 Hj0. cbn [m_status m_peers] in *. pose proof (cnt_premove (m_peers m) a p j0 Ep) as C.
+          rewrite (assigned_none j0 p Ek) in C. cbn [b2n] in C. specialize (Inv j0 n0 Hj0). lia.
+      - intros [= <-]. exact Inv. }
+    destruct (kill_peer m a) as [m1| | |] eqn:EK; cbn [bind] in H; try discriminate. specialize (KP m1 eq_refl).
+    destruct (all_have (m_status m1)); [injection H as <- _ _ _; cbn [m_status m_peers]; apply KP; exact Hj|].
+    destruct (m_candidates m1) eqn:EC; [injection H as <- _ _ _; apply KP; exact Hj|].
+    unfold spawn_peer in H. destruct (rev (m_candidates m1)) as [|[a0 id] rest]; [injection H as <- _ _ _; apply KP; exact Hj|].
+    destruct (pget (m_peers m1) a0) eqn:E0; injection H as <- _ _ _; cbn [m_status m_peers] in *; [apply KP; exact Hj|].
+    rewrite cnt_pset_fresh by exact E0. rewrite (assigned_choked j (new_peer (Some id) (length (m_plens m1))) eq_refl). cbn [b2n].
+    specialize (KP j n Hj). lia.
+Qed.
+
+(* over every history of producible commands, from the start *)
+Inductive mreach : mgr -> Prop :=
+| mreach_init st plens : (forall i n, nthN st i <> Some (Reserved n)) -> mreach (mkmgr st [] [] 0 false plens)
+| mreach_add m a id : mreach m -> pget (m_peers m) a = None ->
+    mreach (mkmgr (m_status m) (pset (m_peers m) a (new_peer id (length (m_plens m)))) (m_candidates m) (m_round m) (m_extracted m) (m_plens m))
+| mreach_step m c pick m' r bc sp : mreach m -> producible m c -> mstep m c pick = Ok (m', r, bc, sp) -> mreach m'.
+
+Theorem reservation_invariant_reachable m : Peer_no_reserve_when_choked = true -> mreach m -> InvM m.
+Proof.
+  intros FR. induction 1 as [st plens H0|m a id _ IH Hf|m c pick m' r bc sp _ IH Hp Hs].
+  - intros i n H. exfalso. exact (H0 i n H).
+  - intros i n H. cbn [m_status m_peers] in *. rewrite cnt_pset_fresh by exact Hf.
+    rewrite (assigned_choked i (new_peer id (length (m_plens m))) eq_refl). cbn [b2n]. specialize (IH i n H). lia.
+  - exact (reservation_invariant m c pick m' r bc sp FR IH Hp Hs).
+Qed.
